@@ -103,5 +103,11 @@ func VerifHarness_C14_ParsersOnValidDenom() {
 	zz.Assume(ValidateClassID(other) == nil)
 	isPrefix := len(d) > len(other) && d[:len(other)+1] == other+"-"
 	zz.Assert(isPrefix == (c == other), "C14 'class id + -' is a prefix of a denom exactly for the denom's own class id")
+	// the same for project ids (C01-100- is not a prefix match for project C01-1000)
+	pm := 6 + zz.NondetChoice("projectlen", 5)
+	otherP := zz.NondetString("project", pm)
+	zz.Assume(ValidateProjectID(otherP) == nil)
+	isPrefixP := len(d) > len(otherP) && d[:len(otherP)+1] == otherP+"-"
+	zz.Assert(isPrefixP == (p == otherP), "C14 'project id + -' is a prefix of a denom exactly for the denom's own project id")
 	zz.Reach("parsers on valid denom")
 }
